@@ -268,6 +268,8 @@ func runC06(c *Ctx, r *Report) {
 	defer c06r7(c, r)
 	defer c06r8(c, r)
 	defer c11r15(c, r) // a reload restarts the numbering and the header diversion
+	defer c06r10(c, r)
+	defer c08r16(c, r) // --tail: a trimmed snapshot is searched afresh, not served from the merger cache
 	defer c06r9(c, r)  // --tail is honoured by every path that loads records
 	defer c13r10(c, r) // the item builder (ordinals, header diversion) is serialised
 
@@ -451,6 +453,8 @@ func runC10(c *Ctx, r *Report) {
 	defer func() {
 		c10r5(c, r)
 		c08r15(c, r) // a change-nth request is not lost to a request that follows it
+		c08r17(c, r) // change-nth compares with the value it replaces
+		c10r6(c, r)
 		if c.thorough() {
 			c08r3(c, r) // change-nth invalidates everything that was computed under the old field selection
 		}
